@@ -162,8 +162,8 @@ class InlineCommentTransformer(Transformer):
         # Then recurse over the new nodes
         visited = tuple(self.visit(i, **kwargs) for i in o)
 
-        # Strip empty sublists/subtuples or None entries
-        return tuple(i for i in visited if i is not None and as_tuple(i))
+        # Strip None entries and empty results of dropped nodes
+        return self._strip_dropped(o, visited)
 
     visit_list = visit_tuple
 
@@ -187,8 +187,8 @@ class ClusterCommentTransformer(Transformer):
         # Then recurse over the new nodes
         visited = tuple(self.visit(i, **kwargs) for i in o)
 
-        # Strip empty sublists/subtuples or None entries
-        return tuple(i for i in visited if i is not None and as_tuple(i))
+        # Strip None entries and empty results of dropped nodes
+        return self._strip_dropped(o, visited)
 
     visit_list = visit_tuple
 
@@ -269,8 +269,8 @@ class CombineMultilinePragmasTransformer(Transformer):
         o = combine_multiline_pragmas(o)
         visited = tuple(self.visit(i, **kwargs) for i in o)
 
-        # Strip empty sublists/subtuples or None entries
-        return tuple(i for i in visited if i is not None and as_tuple(i))
+        # Strip None entries and empty results of dropped nodes
+        return self._strip_dropped(o, visited)
 
 
 class RangeIndexTransformer(Transformer):
